@@ -5,6 +5,7 @@
 import Qfx.Lemmas.Values
 import Qfx.Lemmas.TsShape
 import Qfx.Lemmas.TsRoundTrip
+import Qfx.Lemmas.Decimal
 open Qfx Qfx.Spec
 
 /-! ## int -/
@@ -250,6 +251,39 @@ theorem C14_ts_accept_iff_grammar (b : Bytes) : (readTs b).isOk = TsGrammar 59 b
 
 
 
+
+/-! ### decimals (fix_decimal.go / fix_udecimal.go; values ± mag / 10^scale, no exponent notation) -/
+section Decimals
+open Qfx.Dec
+
+/-- write→read: what `FIXDecimal.Write` produces at scale `s` reads back as the value rounded to `s` decimals
+    (the sign of a zero is dropped: `big.Int` has no negative zero) -/
+theorem C14_dec_write_read (d : Dec) (s : Nat) : readDec (writeDec d s) = .ok (normDec (roundDec d s)) :=
+  render_read _
+
+/-- the rounding `Write` applies is round-half-away-from-zero to exactly `s` decimals, for every value and scale -/
+theorem C14_dec_write_rounds_half_away (d : Dec) (s : Nat) : IsRoundHalfAway d (roundDec d s) s := roundDec_spec d s
+
+/-- a value that already has `s` decimals is written and read back unchanged (up to the sign of zero) -/
+theorem C14_dec_write_read_exact (d : Dec) : readDec (writeDec d d.scale) = .ok (normDec d) := by
+  rw [C14_dec_write_read, roundDec_self]
+
+/-- unsigned decimals: `FIXUDecimal.Write` truncates toward zero to exactly `s` decimals and the text reads back as that -/
+theorem C14_udec_write_read (d : Dec) (s : Nat) :
+    readDec (writeUDec d s) = .ok (normDec (truncDec d s)) ∧ IsTruncTowardZero d (truncDec d s) s :=
+  ⟨render_read _, truncDec_spec d s⟩
+
+/-- read→write: a canonical text (one that `Write` can produce) is reproduced byte for byte by reading it and writing
+    the result at its own scale -/
+theorem C14_dec_read_write (d d' : Dec) (h : readDec (render d) = .ok d') : writeDec d' d'.scale = render d := by
+  rw [render_read] at h
+  injection h with h; subst h
+  unfold writeDec; rw [roundDec_self, render_normDec]
+
+#guard (readDec (asciiOf "-12.50")).isOk && writeDec { neg := true, mag := 12345, scale := 3 } 2 == asciiOf "-12.35"
+#guard writeDec { neg := false, mag := 5, scale := 3 } 2 == asciiOf "0.01" && writeUDec { neg := false, mag := 19, scale := 1 } 0 == asciiOf "1"
+end Decimals
+
 /-!
 Clause checklist (properties.jsonl C14 → theorems)
 * write→read, int:        C14_int_write_read            * read→write, int:  C14_int_read_write
@@ -259,5 +293,6 @@ Clause checklist (properties.jsonl C14 → theorems)
 * float grammar exactly:  C14_float_accept_iff_grammar (value/shortest repr: strconv, correspondence only)
 * timestamp write→read:   C14_ts_write_read; exactly the grammar: C14_ts_accept_iff_grammar; read→write: C14_ts_read_write
 * string/bytes:           C14_string_identity
-* decimal:                not modelled (third-party arithmetic); Go-side round-trip monitor only
+* decimal:                C14_dec_write_read, C14_dec_write_rounds_half_away, C14_dec_write_read_exact, C14_udec_write_read,
+                          C14_dec_read_write (no exponent notation; udecimal's 19-digit limit: correspondence only)
 -/
